@@ -995,6 +995,38 @@ func (v *Verifier) loopVars(li *loopInfo, st *State, phis []*ssa.Phi, vals []Val
 			}
 		}
 	}
+	// Invariants written for a `for ... range` loop name its hidden index "rangeindex" (index of the last element handled). When
+	// the loop has been rewritten as a counting loop (one integer variable that starts at 0 and is incremented by 1), the same
+	// invariants keep their meaning with rangeindex = counter - 1.
+	if _, ok := vars["rangeindex"]; !ok {
+		found := -1
+		for i, ph := range phis {
+			if b, ok := ph.Type().Underlying().(*types.Basic); !ok || b.Info()&types.IsInteger == 0 {
+				continue
+			}
+			zero, inc := false, false
+			for _, e := range ph.Edges {
+				if c, ok := e.(*ssa.Const); ok && c.Value != nil && c.Value.String() == "0" {
+					zero = true
+				}
+				if bo, ok := e.(*ssa.BinOp); ok && bo.Op == token.ADD && bo.X == ssa.Value(ph) {
+					if c, ok := bo.Y.(*ssa.Const); ok && c.Value != nil && c.Value.String() == "1" {
+						inc = true
+					}
+				}
+			}
+			if zero && inc {
+				if found >= 0 {
+					found = -2
+					break
+				}
+				found = i
+			}
+		}
+		if found >= 0 {
+			vars["rangeindex"] = Value{T: "(- " + vals[found].T + " 1)", Sort: "Int", GoT: types.Typ[types.Int]}
+		}
+	}
 	return vars
 }
 
@@ -1519,6 +1551,16 @@ func (v *Verifier) execInstr(st *State, in ssa.Instruction) {
 		st.defers = nil
 	case *ssa.Go:
 		v.notes = append(v.notes, "goroutine creation at "+v.posOf(x)+": the spawned function is a separate entry point; no interleaving is explored")
+		// a spawned closure under contract must be admissible where it is spawned: its preconditions are
+		// proved on a copy of the state as for a synchronous call; the effects of that call are discarded
+		if mc, ok := x.Common().Value.(*ssa.MakeClosure); ok && !x.Common().IsInvoke() {
+			if fn, ok := mc.Fn.(*ssa.Function); ok {
+				if ct := v.prog.contract[funcKey(fn)]; ct != nil {
+					cp := st.clone()
+					v.doCall(cp, x, x.Common())
+				}
+			}
+		}
 		// the closure may run at any time: havoc what it may modify
 		maps := map[string]string{}
 		if v.callMods(x.Common(), maps) {
